@@ -50,7 +50,7 @@ ASSUMPTIONS = [
     "which simulation does not decide",
     "the 'fresh generator' reference uses the same generator code under test (it is the definition of the input)",
 ]
-PROBES = ["explicit_reseed", "explicit_reseed_zero", "cross_process_reproducibility", "history_with_abandoned_pass", "history_with_probe", "from_random_parallel", "window_with_pole", "size_multiple_of_chunk", "tail_chunk", "from_random_with_stalled_peer_fault"]
+PROBES = ["explicit_reseed", "explicit_reseed_zero", "cross_process_reproducibility", "history_with_abandoned_pass", "history_with_probe", "from_random_parallel", "window_with_pole", "size_multiple_of_chunk", "tail_chunk", "from_random_with_stalled_peer_fault", "second_generator_alive"]
 REAL_VS_STUB = dict(
     real="yaw.randoms, RandomReader, Catalog.from_random and the whole creation pipeline, numpy Generator",
     stub="multiprocessing (sim.fakemp) for workers > 1; treecorr RNG/threads for patch_num; builtins.id (sim.identity)",
@@ -234,6 +234,24 @@ class Model:
             raise HistoryViolation(dict(property=PROP, failing_rule="gen", outcome="wrong_size"), f"generator({n}) returned {len(chunk)} points")
         _check_output(self.case, chunk, "gen")
 
+    def op_other(self, which: int, n: int) -> None:
+        """A second, live generator with another window and seed: instances must not share state."""
+        import yaw
+
+        ra0, ra1, de0, de1 = self.case["window"]
+        width, height = ra1 - ra0, de1 - de0
+        if which % 2 == 0:
+            win = (ra0 + 0.25 * width, ra0 + 0.5 * width, de0 + 0.5 * height, de1)
+        else:
+            lo = (ra1 + 7.0) % 300.0
+            dlo = min(max(-85.0, de0 - 5.0), 75.0)
+            win = (lo, min(360.0, lo + max(1.0, 0.5 * width)), dlo, min(89.0, dlo + max(1.0, 0.25 * height)))
+        other = yaw.randoms.BoxRandoms(*win, seed=self.case["gen_seed"] + 17 + which)
+        self.others = (getattr(self, "others", []) + [other])[-2:]
+        self.rec.probe("second_generator_alive")
+        pts = other(n)
+        _check_output(dict(self.case, window=win, has_w=False, has_z=False), pts, "other generator")
+
     def op_reseed(self, which: int, n: int) -> None:
         """reseed(seed) on the used generator, then draw: must equal a fresh generator with that seed."""
         seed = [0, self.case["gen_seed"], 1, 12345][which % 4]
@@ -412,7 +430,9 @@ def draw_op(prng) -> list:
     """One rule application drawn from the harness PRNG (same distributions as the
     Hypothesis machine below)."""
     chunks = [1, 2, 3, 5, 7, 10, 16, 20, 64]
-    rule = prng.choice(["gen", "probe", "pass", "from_random", "from_random", "reseed"])
+    rule = prng.choice(["gen", "probe", "pass", "from_random", "from_random", "reseed", "other"])
+    if rule == "other":
+        return ["other", prng.below(4), prng.randint(1, 20)]
     if rule == "reseed":
         return ["reseed", prng.below(4), prng.randint(1, 30)]
     if rule == "gen":
@@ -449,6 +469,10 @@ def _machine_factory(case: dict, root: str, rec: Recorder):
         @rule(n=st.integers(0, 50))
         def gen(self, n):
             self._do(["gen", n])
+
+        @rule(which=st.integers(0, 3), n=st.integers(1, 20))
+        def other(self, which, n):
+            self._do(["other", which, n])
 
         @rule(which=st.integers(0, 3), n=st.integers(1, 30))
         def reseed(self, which, n):
